@@ -171,6 +171,13 @@ func RandomHolder(r *core.Rng, layout string, issuer3 string) Holder {
 	if strings.HasSuffix(h.DocNo, "<") {
 		h.DocNo = h.DocNo[:len(h.DocNo)-1] + "X"
 	}
+	// a filler INSIDE the number (a space or hyphen of the visual zone; Doc 9303-3 4.3): about one holder in 18, derived
+	// from the characters already drawn (no extra draw: the rest of the stream stays as it was). Only within the
+	// first nine characters - in the continuation of an extended number a filler would end the number.
+	if n := min(len(h.DocNo), 9); n >= 3 && (h.DocNo[1] == '0' || h.DocNo[1] == '1') {
+		i := 1 + int(h.DocNo[0])%(n-2)
+		h.DocNo = h.DocNo[:i] + "<" + h.DocNo[i+1:]
+	}
 	if r.Chance(1, 2) {
 		n := map[string]int{"TD1": 15, "TD2": 7, "TD3": 14}[layout]
 		if len(h.DocNo) > 9 {
